@@ -63,6 +63,15 @@ func mergeFns(c *core.Ctx, rule string) map[string]*an.Fn {
 		return out
 	}
 	iface := an.LookupIface(ml, "Mergeable")
+	// the interface as package ring sees it (ring's own import), so that the answer does not depend on
+	// which variant of kv/memberlist is being analysed
+	if imp := ring.Imports[ml.PkgPath]; imp != nil && imp.Types != nil {
+		if tn, ok := imp.Types.Scope().Lookup("Mergeable").(*types.TypeName); ok {
+			if it, ok := tn.Type().Underlying().(*types.Interface); ok {
+				iface = it
+			}
+		}
+	}
 	if iface == nil {
 		c.Miss(rule, "type=memberlist.Mergeable", "interface not found")
 		return out
